@@ -17,16 +17,17 @@ var fsRuleSets = map[string][]string{
 	"C16": {"PAIR-LOCK", "PAIR-TMP", "FAIL-NO-EFFECT"},
 }
 
-// instance floors: rule -> minimum number of obligations (hand-confirmed on
-// the repaired pinned tree, in semantic terms: per operation / role).
+// instance floors: rule -> minimum number of operations (entry points and
+// protocol sequences) in which the rule must have been evaluated.  Counted in
+// semantic terms, so moving code into helpers does not change the count.
 var fsFloors = map[string]map[string]int{
-	"C04": {"LIST-WRITE": 2, "LIST-HELD": 2, "LIST-VALID": 2, "LIST-CONTENT": 2, "LIST-COMPLETE": 2, "POST-COMMIT-OK": 1, "LOCK-OWN": 3, "UPTODATE-MEANS-EQUAL": 4},
-	"C05": {"ORDER-TABLE-FIRST": 2, "ORDER-DELETE-LAST": 3, "GATE-IDX": 1, "LIST-VALID": 3},
-	"C06": {"ORDER-TABLE-FIRST": 2, "ORDER-DELETE-LAST": 3, "LIST-WRITE": 2, "LIST-COMPLETE": 2},
-	"C08": {"LOCK-EXCL": 3, "LOCK-OWN": 3},
-	"C09": {"LIST-VALID": 3, "UPTODATE-MEANS-EQUAL": 4, "STALE-RELOAD": 1, "GATE-IDX": 1},
-	"C10": {"READER-OWN": 6, "MERGED-FRESH": 5, "RELOAD-COMPLETE": 5},
-	"C16": {"PAIR-LOCK": 8, "PAIR-TMP": 8, "FAIL-NO-EFFECT": 8},
+	"C04": {"LIST-WRITE": 4, "LIST-HELD": 4, "LIST-VALID": 5, "LIST-CONTENT": 4, "LIST-COMPLETE": 4, "POST-COMMIT-OK": 1, "LOCK-OWN": 5, "UPTODATE-MEANS-EQUAL": 5},
+	"C05": {"ORDER-TABLE-FIRST": 4, "ORDER-DELETE-LAST": 5, "GATE-IDX": 2, "LIST-VALID": 5},
+	"C06": {"ORDER-TABLE-FIRST": 4, "ORDER-DELETE-LAST": 5, "LIST-WRITE": 4, "LIST-COMPLETE": 4},
+	"C08": {"LOCK-EXCL": 5, "LOCK-OWN": 5},
+	"C09": {"LIST-VALID": 5, "UPTODATE-MEANS-EQUAL": 5, "STALE-RELOAD": 1, "GATE-IDX": 2},
+	"C10": {"READER-OWN": 8, "MERGED-FRESH": 5, "RELOAD-COMPLETE": 5},
+	"C16": {"PAIR-LOCK": 10, "PAIR-TMP": 10, "FAIL-NO-EFFECT": 10},
 }
 
 var fsExplain = map[string]string{
@@ -86,7 +87,7 @@ func checkFs(prop string) checkFunc {
 			}
 		}
 		for ru, n := range fsFloors[prop] {
-			r.floor(ru, count[ru], n, "obligations of rule "+ru)
+			r.floor(ru, len(res.rules.seen[ru]), n, "operations (entry points / protocol sequences) in which rule "+ru+" was evaluated")
 		}
 		var eps []string
 		paths, states := 0, 0
